@@ -166,6 +166,37 @@ class Ref:
         return None, []
 
 
+def _min_size(ref, f, primes):
+    """Exact size of a minimum cover of the points `f` by `primes` (branch and
+    bound on the point with the fewest covering primes)."""
+    f = list(f)
+    cov_of = [frozenset(i for i, pt in enumerate(f) if ref.inside(p, pt)) for p in primes]
+    by_pt = [[j for j, c in enumerate(cov_of) if i in c] for i in range(len(f))]
+    best = [len(f) + 1]
+
+    def go(uncovered, k):
+        if not uncovered:
+            best[0] = min(best[0], k)
+            return
+        if k + 1 >= best[0]:
+            return
+        # lower bound: points whose covering primes are pairwise disjoint sets
+        i = min(uncovered, key=lambda i: len(by_pt[i]))
+        for j in sorted(by_pt[i], key=lambda j: -len(cov_of[j] & uncovered)):
+            go(uncovered - cov_of[j], k + 1)
+    go(frozenset(range(len(f))), 0)
+    return best[0]
+
+
+def _has_cyclic_core(ref, f, primes):
+    """Some point of `f` remains after taking every essential prime."""
+    f = list(f)
+    cov = {pt: [p for p in primes if ref.inside(p, pt)] for pt in f}
+    ess = {cs[0] for cs in cov.values() if len(cs) == 1}
+    rest = [pt for pt in f if not any(ref.inside(p, pt) for p in ess)]
+    return bool(rest)
+
+
 def _mk(decl, backend):
     c = fol_.Context()
     if backend == 'autoref':
@@ -206,6 +237,19 @@ def instances(decl, mode, seed, n):
             out.append((f, hint))
         if n and len(out) > n:
             out = rnd.sample(out, n)
+    elif mode == 'cyclic-core':
+        # sampled larger instances whose covering problem has a non-empty cyclic
+        # core (no essential prime covers everything): the branch and bound runs
+        tries = 0
+        while len(out) < n and tries < 60 * n:
+            tries += 1
+            care = pts if rnd.random() < 0.7 else [p for p in pts if rnd.random() < 0.9]
+            f = [p for p in care if rnd.random() < rnd.choice([0.45, 0.55, 0.65])]
+            if not f:
+                continue
+            allowed = set(f) | (set(pts) - set(care))
+            if _has_cyclic_core(ref, f, ref.primes(allowed)):
+                out.append((f, care))
     else:
         for i in range(n):
             care = [p for p in pts if rnd.random() < rnd.choice([0.6, 0.9, 1.0])]
@@ -246,9 +290,18 @@ def cover_check(decl, mode, seed, n, backend, what):
                 fails.append(dict(name='the covering algorithm terminates without an internal AssertionError',
                                   where=f'{tb.name}:{tb.lineno}', line=tb.line, **desc))
                 continue
+            except Exception as e:
+                import traceback
+                tb = traceback.extract_tb(e.__traceback__)[-1]
+                fails.append(dict(name='the covering algorithm returns a cover (raises no exception)',
+                                  error=repr(e)[:200], where=f'{tb.name}:{tb.lineno}', line=tb.line, **desc))
+                continue
             prm = lat.setup_aux_vars(f, care, c)
             primes = ref.primes(allowed)
-            kmin, allmin = ref.min_covers(fpts, primes)
+            if mode == 'cyclic-core' and what == 'C09':
+                kmin, allmin = _min_size(ref, fpts, primes), []
+            else:
+                kmin, allmin = ref.min_covers(fpts, primes)
             if what == 'C10':
                 got = {frozenset(_cover_boxes(c, cv, prm, names, ref)) for cv in covers}
                 want = {frozenset(primes[i] for i in cs) for cs in allmin}
